@@ -4,6 +4,8 @@ import (
 	"fmt"
 	"go/ast"
 	"go/token"
+	"os"
+	"path/filepath"
 	"sort"
 	"strings"
 )
@@ -146,6 +148,25 @@ func c12Sweeps(fd *ast.FuncDecl) []string {
 		return true
 	})
 	return out
+}
+
+// c12Full renders selector chains with their receivers (a.b.c) and calls as f(args).
+func c12Full(x ast.Expr) string {
+	switch v := x.(type) {
+	case *ast.Ident:
+		return v.Name
+	case *ast.SelectorExpr:
+		return c12Full(v.X) + "." + v.Sel.Name
+	case *ast.CallExpr:
+		var as []string
+		for _, a := range v.Args {
+			as = append(as, c12Full(a))
+		}
+		return c12Full(v.Fun) + "(" + strings.Join(as, ",") + ")"
+	case *ast.StarExpr:
+		return "*" + c12Full(v.X)
+	}
+	return c12Expr(x)
 }
 
 func c12StrList(xs []string) string {
@@ -499,5 +520,284 @@ func init() {
 		fmt.Fprintf(&e.out, "\n")
 		fmt.Fprintf(&e.out, "def mergeWriteCachesWritten : Bool := %v\n", writeOK)
 		fmt.Fprintf(&e.out, "def mergeSkipCachesOld : Bool := %v\n", skipOK)
+
+		// 6. who hands updaters to LeveledUpdateBatch (outside resourceexecutor), what the levels are and where the
+		//    level slices are filled from: "<dir>:<func>" -> "<source of level 0>,<source of level 1>,..."
+		var callers []string
+		_ = filepath.Walk(filepath.Join(e.repo, "pkg/koordlet"), func(p string, info os.FileInfo, err error) error {
+			if err != nil || !info.IsDir() {
+				return nil
+			}
+			rel, _ := filepath.Rel(e.repo, p)
+			if rel == "pkg/koordlet/resourceexecutor" {
+				return nil
+			}
+			fnames := make([]string, 0)
+			fm := e.dir(rel)
+			for n := range fm {
+				fnames = append(fnames, n)
+			}
+			sort.Strings(fnames)
+			for _, n := range fnames {
+				for _, dcl := range fm[n].Decls {
+					fd, ok := dcl.(*ast.FuncDecl)
+					if !ok || fd.Body == nil {
+						continue
+					}
+					var arg ast.Expr
+					ncalls := 0
+					ast.Inspect(fd.Body, func(x ast.Node) bool {
+						if c, ok := x.(*ast.CallExpr); ok {
+							if sl, ok := c.Fun.(*ast.SelectorExpr); ok && sl.Sel.Name == "LeveledUpdateBatch" && len(c.Args) == 1 {
+								arg = c.Args[0]
+								ncalls++
+							}
+						}
+						return true
+					})
+					if ncalls == 0 {
+						continue
+					}
+					if ncalls > 1 {
+						e.fail("%s:%s calls LeveledUpdateBatch %d times", rel, fd.Name.Name, ncalls)
+					}
+					// resolve an identifier argument to the composite literal it was assigned
+					if id, ok := arg.(*ast.Ident); ok {
+						ast.Inspect(fd.Body, func(x ast.Node) bool {
+							if as, ok := x.(*ast.AssignStmt); ok && len(as.Lhs) == 1 && len(as.Rhs) == 1 {
+								if l, ok := as.Lhs[0].(*ast.Ident); ok && l.Name == id.Name {
+									arg = as.Rhs[0]
+								}
+							}
+							return true
+						})
+					}
+					// every level is described by where its updaters come from, not by the name of the local slice:
+					//   "<Type>.GetUpdaters" : filled by append(level, x.GetUpdaters()...) with x := &pkg.<Type>{}
+					//   "<callee>#<i>"       : the i-th result of one call
+					var descr []string
+					typeOf := func(name string) string {
+						t := "?"
+						ast.Inspect(fd.Body, func(x ast.Node) bool {
+							if as, ok := x.(*ast.AssignStmt); ok && len(as.Lhs) == 1 && len(as.Rhs) == 1 {
+								if l, ok := as.Lhs[0].(*ast.Ident); ok && l.Name == name {
+									if u, ok := as.Rhs[0].(*ast.UnaryExpr); ok && u.Op == token.AND {
+										if cl, ok := u.X.(*ast.CompositeLit); ok {
+											t = c12Expr(cl.Type)
+										}
+									}
+								}
+							}
+							return true
+						})
+						return t
+					}
+					if cl, ok := arg.(*ast.CompositeLit); ok {
+						for _, el := range cl.Elts {
+							ln := c12Full(el)
+							var src []string
+							ast.Inspect(fd.Body, func(x ast.Node) bool {
+								as, ok := x.(*ast.AssignStmt)
+								if !ok || len(as.Rhs) != 1 {
+									return true
+								}
+								c, ok := as.Rhs[0].(*ast.CallExpr)
+								if !ok {
+									return true
+								}
+								if len(as.Lhs) == 1 && c12Full(as.Lhs[0]) == ln && c12Expr(c.Fun) == "append" && len(c.Args) == 2 {
+									d := c12Full(c.Args[1])
+									if ic, ok := c.Args[1].(*ast.CallExpr); ok {
+										if sl, ok := ic.Fun.(*ast.SelectorExpr); ok {
+											if id, ok := sl.X.(*ast.Ident); ok {
+												d = typeOf(id.Name) + "." + sl.Sel.Name
+											}
+										}
+									}
+									src = append(src, d)
+								} else if len(as.Lhs) > 1 {
+									for i, l := range as.Lhs {
+										if c12Full(l) == ln {
+											src = append(src, fmt.Sprintf("%s#%d", c12Expr(c.Fun), i))
+										}
+									}
+								}
+								return true
+							})
+							if len(src) == 0 {
+								src = []string{"?"}
+							}
+							descr = append(descr, strings.Join(src, "+"))
+						}
+					} else {
+						descr = []string{"?"}
+					}
+					levels := strings.Join(descr, ",")
+					fills := []string{}
+					_ = fills
+					callers = append(callers, fmt.Sprintf("(%s, %s)", leanStr(rel+":"+fd.Name.Name), leanStr(levels)))
+				}
+			}
+			return nil
+		})
+		sort.Strings(callers)
+		fmt.Fprintf(&e.out, "\n/-- callers of LeveledUpdateBatch: (dir:func, sources of the levels) -/\n")
+		fmt.Fprintf(&e.out, "def leveledCallers : List (String × String) := [%s]\n", strings.Join(callers, ",\n  "))
+
+		// 7. runtimehooks/protocol: the constructor behind every inject* helper ("factory:<resource>" = DefaultCgroupUpdaterFactory.New)
+		//    and which helper serves which Response.Resources field in the pod / container contexts
+		pd := "pkg/koordlet/runtimehooks/protocol"
+		var injects []string
+		{
+			var names []string
+			byName := map[string]string{}
+			for _, f := range e.dir(pd) {
+				for _, dcl := range f.Decls {
+					fd, ok := dcl.(*ast.FuncDecl)
+					if !ok || fd.Body == nil || fd.Recv != nil || !strings.HasPrefix(fd.Name.Name, "inject") {
+						continue
+					}
+					ctor := ""
+					n := 0
+					ast.Inspect(fd.Body, func(x ast.Node) bool {
+						as, ok := x.(*ast.AssignStmt)
+						if !ok || len(as.Rhs) != 1 {
+							return true
+						}
+						c, ok := as.Rhs[0].(*ast.CallExpr)
+						if !ok {
+							return true
+						}
+						full := c12Full(c.Fun)
+						if !strings.HasPrefix(full, "resourceexecutor.") {
+							return true
+						}
+						n++
+						if full == "resourceexecutor.DefaultCgroupUpdaterFactory.New" && len(c.Args) > 0 {
+							ctor = "factory:" + c12Expr(c.Args[0])
+						} else {
+							ctor = c12Expr(c.Fun)
+						}
+						return true
+					})
+					if n != 1 {
+						e.fail("%s: %d resourceexecutor constructor calls", fd.Name.Name, n)
+					}
+					names = append(names, fd.Name.Name)
+					byName[fd.Name.Name] = ctor
+				}
+			}
+			sort.Strings(names)
+			for _, n := range names {
+				injects = append(injects, fmt.Sprintf("(%s, %s)", leanStr(n), leanStr(byName[n])))
+			}
+		}
+		fmt.Fprintf(&e.out, "/-- protocol.go inject helpers: (helper, constructor) -/\n")
+		fmt.Fprintf(&e.out, "def injectCtors : List (String × String) := [%s]\n", strings.Join(injects, ",\n  "))
+		var respInj []string
+		for _, rc := range []struct{ recv, fn string }{{"PodContext", "injectForExt"}, {"PodContext", "injectForOrigin"},
+			{"ContainerContext", "injectForExt"}, {"ContainerContext", "injectForOrigin"}} {
+			fd := e.funcDecl(pd, rc.recv, rc.fn)
+			if fd == nil || fd.Body == nil {
+				e.fail("%s.%s not found", rc.recv, rc.fn)
+				continue
+			}
+			for _, st := range fd.Body.List {
+				is, ok := st.(*ast.IfStmt)
+				if !ok {
+					continue
+				}
+				b, ok := is.Cond.(*ast.BinaryExpr)
+				if !ok || b.Op != token.NEQ || c12Expr(b.Y) != "nil" {
+					continue
+				}
+				field := c12Expr(b.X)
+				if field != "CFSQuota" && field != "CPUSet" && field != "MemoryLimit" {
+					continue
+				}
+				var helpers []string
+				ast.Inspect(is.Body, func(x ast.Node) bool {
+					if c, ok := x.(*ast.CallExpr); ok {
+						if id, ok := c.Fun.(*ast.Ident); ok && strings.HasPrefix(id.Name, "inject") {
+							helpers = append(helpers, id.Name)
+						}
+					}
+					return true
+				})
+				respInj = append(respInj, fmt.Sprintf("(%s, %s)", leanStr(rc.recv+"."+field), leanStr(strings.Join(helpers, "+"))))
+			}
+		}
+		sort.Strings(respInj)
+		fmt.Fprintf(&e.out, "/-- which helper builds the updater of a Response.Resources field: (Context.Field, helper) -/\n")
+		fmt.Fprintf(&e.out, "def responseInjects : List (String × String) := [%s]\n", strings.Join(respInj, ", "))
+
+		// 8. cgreconcile makeCgroupResources: the table rows (resource, isMergeable), the condition choosing the
+		//    constructor, and the two constructors
+		var rows []string
+		kindCond, thenCtor, elseCtor := "", "", ""
+		if fd := e.funcDecl("pkg/koordlet/qosmanager/plugins/cgreconcile", "", "makeCgroupResources"); fd == nil || fd.Body == nil {
+			e.fail("makeCgroupResources not found")
+		} else {
+			c12SetParams(fd)
+			for _, st := range fd.Body.List {
+				rs, ok := st.(*ast.RangeStmt)
+				if !ok {
+					continue
+				}
+				if cl, ok := rs.X.(*ast.CompositeLit); ok {
+					for _, el := range cl.Elts {
+						row, ok := el.(*ast.CompositeLit)
+						if !ok {
+							e.fail("makeCgroupResources: unexpected table row")
+							continue
+						}
+						name, mg := "?", "false"
+						for _, kv := range row.Elts {
+							if k, ok := kv.(*ast.KeyValueExpr); ok {
+								switch c12Expr(k.Key) {
+								case "resourceType":
+									name = c12Expr(k.Value)
+								case "isMergeable":
+									mg = c12Expr(k.Value)
+								}
+							}
+						}
+						rows = append(rows, fmt.Sprintf("(%s, %s)", leanStr(name), mg))
+					}
+				} else {
+					e.fail("makeCgroupResources: table is not a literal")
+				}
+				ctorOf := func(list []ast.Stmt) string {
+					var cs []string
+					for _, s := range list {
+						if as, ok := s.(*ast.AssignStmt); ok && len(as.Rhs) == 1 {
+							if c, ok := as.Rhs[0].(*ast.CallExpr); ok && strings.HasPrefix(c12Full(c.Fun), "resourceexecutor.") {
+								cs = append(cs, c12Expr(c.Fun))
+							}
+						}
+					}
+					return strings.Join(cs, "+")
+				}
+				nIf := 0
+				for _, b := range rs.Body.List {
+					if is, ok := b.(*ast.IfStmt); ok && is.Else != nil {
+						nIf++
+						kindCond = c12ExprL(is.Cond)
+						thenCtor = ctorOf(is.Body.List)
+						if eb, ok := is.Else.(*ast.BlockStmt); ok {
+							elseCtor = ctorOf(eb.List)
+						}
+					}
+				}
+				if nIf != 1 {
+					e.fail("makeCgroupResources: %d if/else statements in the loop", nIf)
+				}
+			}
+		}
+		fmt.Fprintf(&e.out, "/-- cgreconcile makeCgroupResources: table rows (resource, isMergeable); constructor choice -/\n")
+		fmt.Fprintf(&e.out, "def cgrTable : List (String × Bool) := [%s]\n", strings.Join(rows, ", "))
+		fmt.Fprintf(&e.out, "def cgrKindCond : String := %s\n", leanStr(kindCond))
+		fmt.Fprintf(&e.out, "def cgrThenCtor : String := %s\n", leanStr(thenCtor))
+		fmt.Fprintf(&e.out, "def cgrElseCtor : String := %s\n", leanStr(elseCtor))
 	}
 }
